@@ -5,6 +5,16 @@ mod adam;
 mod lm;
 mod sgd;
 
+/// Relative change between two successive values of a parameter. Unlike `approx_eq::rel_diff`,
+/// this takes signs into account, so `x` and `-x` are not considered equal.
+fn rel_change(new: f64, old: f64) -> f64 {
+    if new == old {
+        0.
+    } else {
+        (new - old).abs() / new.abs().max(old.abs())
+    }
+}
+
 pub trait Optimizer {
     type Output;
     fn optimize<F>(
